@@ -684,3 +684,386 @@ Proof.
   - apply (r_c _ _ HR).
   - apply (r_p _ _ HR).
 Qed.
+
+(* ------------------------------------------------------------------ *)
+(* every well-formed operation preserves the invariant                 *)
+
+Lemma idle_cover sp : SI sp -> sp_pend sp = None -> sp_persisted sp = false /\ cover sp = sp_saved sp.
+Proof.
+  intros HS Hp. unfold cover. destruct (sp_persisted sp) eqn:E; auto.
+  exfalso. apply (si_pers _ HS); auto.
+Qed.
+
+(* operations that only touch the entryLog (append, commitTo), idle phase *)
+Lemma R_el_update w sp el' sp' :
+  R w sp -> SI sp' -> sp_pend sp = None ->
+  sp_mi sp' = sp_mi sp -> sp_mt sp' = sp_mt sp -> sp_snap sp' = sp_snap sp ->
+  sp_pend sp' = None -> sp_persisted sp' = false ->
+  el_committed el' = sp_committed sp' -> el_processed el' = sp_processed sp' ->
+  im_saved (el_im el') = sp_saved sp' ->
+  sp_mi sp + 1 <= im_marker (el_im el') -> im_marker (el_im el') <= sp_saved sp' + 1 ->
+  im_ents (el_im el') = skipn (N.to_nat (im_marker (el_im el') - sp_mi sp - 1)) (sp_ents sp') ->
+  im_snap (el_im el') = im_snap (el_im (w_el w)) ->
+  im_aidx (el_im el') = im_aidx (el_im (w_el w)) -> im_aterm (el_im el') = im_aterm (el_im (w_el w)) ->
+  sp_committed sp <= sp_committed sp' ->
+  (forall i, sp_mi sp <= i -> i <= sp_committed sp -> sp_term sp' i = sp_term sp i) ->
+  sp_saved sp' <= sp_saved sp ->
+  (forall i, sp_mi sp < i -> i <= sp_saved sp' -> sp_get sp' i = sp_get sp i) ->
+  (sp_saved sp' = sp_last sp' -> sp_saved sp = sp_last sp /\ sp_last sp' = sp_last sp) ->
+  R (with_el w el') sp'.
+Proof.
+  intros HR HS' Hidle Hmi Hmt Hsn Hp' Hpers' Hc Hp Hs M1 M2 He Hsnap Ha1 Ha2 Hcc Hterm Hsv Hget Hlast.
+  destruct (idle_cover _ (r_si _ _ HR) Hidle) as (Hpers & Hcov).
+  assert (Hcov' : cover sp' = sp_saved sp') by (unfold cover; rewrite Hpers'; reflexivity).
+  assert (Hok : rd_ok sp' = rd_ok sp) by (unfold rd_ok; rewrite Hsn, Hpers, Hpers'; reflexivity).
+  constructor; cbn [with_el w_el w_lr w_st w_queue]; try rewrite Hmi; try rewrite Hmt.
+  - exact HS'.
+  - exact Hc.
+  - exact Hp.
+  - exact Hs.
+  - exact M1.
+  - exact M2.
+  - exact He.
+  - rewrite Hsnap, Hsn. apply (r_snap _ _ HR).
+  - rewrite Ha1. pose proof (r_a1 _ _ HR). lia.
+  - rewrite Ha1, Ha2. intros A B. destruct (r_a2 _ _ HR A B) as (C & D). split; auto.
+    rewrite Hterm; auto. apply (r_a1 _ _ HR).
+  - rewrite Hok. intros Ok'. destruct (r_lr _ _ HR Ok') as (A & B & C & D & E). rewrite Hcov', Hcov in *.
+    repeat split; auto; try lia.
+  - rewrite Hcov'. intros i H1 H2. rewrite Hget by auto. apply (r_st _ _ HR); auto. rewrite Hcov. lia.
+  - rewrite Hcov'. intros H1. pose proof (r_stmax _ _ HR) as SM. rewrite Hcov in SM.
+    destruct (N.lt_ge_cases (sp_mi sp) (sp_saved sp)) as [H|H]; [specialize (SM H); lia|lia].
+  - rewrite Hok. apply (r_ss _ _ HR).
+  - rewrite Hp'. pose proof (r_q _ _ HR) as Q. rewrite Hidle in Q. exact Q.
+Qed.
+
+Lemma sp_term_eq sp sp' i : sp_mi sp' = sp_mi sp -> sp_mt sp' = sp_mt sp -> sp_get sp' i = sp_get sp i ->
+  sp_term sp' i = sp_term sp i.
+Proof. intros A B C. unfold sp_term. rewrite A, B, C. reflexivity. Qed.
+
+Lemma step_commit_to w sp k : R w sp -> wf_op sp (OCommitTo k) = true ->
+  exists w', step w (OCommitTo k) = Ok w' /\ R w' (sp_commit_to sp k).
+Proof.
+  intros HR Hwf. cbn [wf_op] in Hwf. apply andb_true_iff in Hwf as [Hidle Hk].
+  unfold idle in Hidle. destruct (sp_pend sp) eqn:Ep; [discriminate|].
+  pose proof (r_si _ _ HR) as HS.
+  cbn [step]. unfold w_commit_to, el_commit_to, sp_commit_to. rewrite (r_c _ _ HR), (v_last _ _ HR).
+  destruct (k <=? sp_committed sp) eqn:E1.
+  - cbn [bind]. eexists; split; [reflexivity|]. destruct w as [el lr st pv q lim]. exact HR.
+  - destruct (sp_last sp <? k) eqn:E2; [lia|]. cbn [bind]. eexists; split; [reflexivity|].
+    destruct (idle_cover _ HS Ep) as (Hpers & _).
+    apply R_el_update with (sp := sp); auto; cbn; try reflexivity; try lia.
+    + destruct HS. constructor; cbn; auto; unfold sp_last in *; cbn; try lia.
+    + apply (r_p _ _ HR).
+    + apply (r_s _ _ HR).
+    + apply (r_m1 _ _ HR).
+    + apply (r_m2 _ _ HR).
+    + apply (r_ents _ _ HR).
+Qed.
+
+(* ---- append ---- *)
+Lemma skipn_firstn_app {A} k n (l x : list A) : (k <= n)%nat -> (n <= length l)%nat ->
+  skipn k (firstn n l ++ x) = firstn (n - k) (skipn k l) ++ x.
+Proof.
+  intros H1 H2. rewrite skipn_app. rewrite firstn_length. replace (k - Nat.min n (length l))%nat with 0%nat by lia.
+  cbn [skipn]. f_equal. apply skipn_firstn_comm.
+Qed.
+
+Lemma im_ents_slice w sp : R w sp -> im_ents (el_im (w_el w)) = sp_slice sp (im_marker (el_im (w_el w))) (sp_last sp + 1).
+Proof.
+  intros HR. rewrite (r_ents _ _ HR) at 1. unfold sp_slice. rewrite firstn_all2; [reflexivity|].
+  rewrite skipn_length. pose proof (r_m1 _ _ HR). unfold sp_last, nlen. lia.
+Qed.
+
+Definition app_pre (sp : spec) (ents : list entry) : Prop :=
+  exists e0 rest, ents = e0 :: rest /\ log_ok (e_index e0) ents /\
+    sp_committed sp < e_index e0 /\ e_index e0 <= sp_last sp + 1 /\
+    (forall e, sp_get sp (e_index e0 - 1) = Some e -> e_term e <= e_term e0) /\
+    e_index e0 + nlen ents < max_index.
+
+Lemma sp_append_facts sp ents : SI sp -> app_pre sp ents ->
+  let f := e_index (hd dummy_entry ents) in
+  let sp' := sp_append sp ents in
+  SI sp' /\ sp_last sp' = f - 1 + nlen ents /\
+  sp_ents sp' = firstn (N.to_nat (f - sp_mi sp - 1)) (sp_ents sp) ++ ents /\
+  (forall i, sp_mi sp < i -> i <= f - 1 -> sp_get sp' i = sp_get sp i) /\
+  sp_saved sp' = N.min (sp_saved sp) (f - 1) /\ sp_committed sp' = sp_committed sp /\
+  sp_processed sp' = sp_processed sp /\ sp_mi sp' = sp_mi sp /\ sp_mt sp' = sp_mt sp /\
+  sp_snap sp' = sp_snap sp /\ sp_pend sp' = sp_pend sp /\ sp_persisted sp' = sp_persisted sp.
+Proof.
+  intros HS (e0 & rest & -> & Hlog & Hc & Hl & Hj & Hmax). cbn [hd]. cbn zeta.
+  set (f := e_index e0) in *. set (ents := e0 :: rest) in *.
+  pose proof (si_mp _ HS). pose proof (si_pc _ HS). pose proof (si_cl _ HS). pose proof (si_ps _ HS). pose proof (si_sl _ HS).
+  assert (Hn : (N.to_nat (f - sp_mi sp - 1) <= length (sp_ents sp))%nat) by (unfold sp_last, nlen in Hl; lia).
+  assert (Hfl : length (firstn (N.to_nat (f - sp_mi sp - 1)) (sp_ents sp)) = N.to_nat (f - sp_mi sp - 1))
+    by (rewrite firstn_length; lia).
+  assert (Hlast : sp_last (sp_append sp ents) = f - 1 + nlen ents).
+  { unfold sp_append, ents, sp_last. cbn [sp_mi sp_ents]. fold f. rewrite nlen_app. unfold nlen at 1. rewrite Hfl. lia. }
+  assert (Hget : forall i, sp_mi sp < i -> i <= f - 1 -> sp_get (sp_append sp ents) i = sp_get sp i).
+  { intros i Hi1 Hi2. unfold sp_get, sp_append, ents. cbn [sp_mi sp_ents]. fold f.
+    destruct (i <=? sp_mi sp); auto. rewrite nth_error_app1 by lia. apply nth_error_firstn_lt. lia. }
+  split; [|repeat split; auto].
+  constructor; unfold sp_append, ents; cbn [sp_mi sp_mt sp_ents sp_committed sp_processed sp_saved sp_snap sp_pend sp_persisted]; fold f; fold ents; try lia.
+  - apply log_ok_app.
+    + apply log_ok_firstn. apply (si_log _ HS).
+    + unfold nlen. rewrite Hfl. replace (sp_mi sp + 1 + N.of_nat (N.to_nat (f - sp_mi sp - 1))) with f by lia. exact Hlog.
+    + intros Hne _. cbn [hd ents]. apply Hj.
+      pose proof (last_entry_nth _ Hne) as HL. rewrite Hfl in HL.
+      assert (N.to_nat (f - sp_mi sp - 1) >= 1)%nat by (destruct (N.to_nat (f - sp_mi sp - 1)); [cbn in Hne; congruence|lia]).
+      rewrite nth_error_firstn_lt in HL by lia. unfold sp_get.
+      destruct (f - 1 <=? sp_mi sp) eqn:E; [lia|]. rewrite <- HL. f_equal. lia.
+  - unfold sp_last; cbn [sp_mi sp_ents]; rewrite nlen_app; unfold nlen at 1; rewrite Hfl. unfold ents. rewrite nlen_cons. lia.
+  - unfold sp_last; cbn [sp_mi sp_ents]; rewrite nlen_app; unfold nlen at 1; rewrite Hfl. unfold ents. rewrite nlen_cons. lia.
+  - intros Es. destruct (si_snap _ HS Es). split; lia.
+  - unfold sp_last; cbn [sp_mi sp_ents]; rewrite nlen_app; unfold nlen at 1; rewrite Hfl. lia.
+  - apply (si_pers _ HS).
+Qed.
+
+Lemma check_marker_hd im : log_ok (im_marker im) (im_ents im) -> im_check_marker im = true.
+Proof.
+  intros H. unfold im_check_marker. destruct (im_ents im) eqn:E; auto.
+  pose proof (log_ok_hd _ _ _ H). lia.
+Qed.
+
+Lemma el_append_R w sp ents : R w sp -> sp_pend sp = None -> app_pre sp ents ->
+  exists el', el_append (w_el w) ents = Ok el' /\ R (with_el w el') (sp_append sp ents).
+Proof.
+  intros HR Hidle Hpre. pose proof (r_si _ _ HR) as HS.
+  destruct (sp_append_facts sp ents HS Hpre) as (HS' & Hlast' & Hents' & Hget' & Hsv' & Hc' & Hp' & Hmi' & Hmt' & Hsn' & Hpd' & Hps').
+  destruct Hpre as (e0 & rest & -> & Hlog & Hc & Hl & Hj & Hmax). cbn [hd] in *.
+  set (f := e_index e0) in *. set (ents := e0 :: rest) in *. set (sp' := sp_append sp ents) in *.
+  pose proof (r_m1 _ _ HR) as M1. pose proof (r_m2 _ _ HR) as M2.
+  pose proof (si_mp _ HS). pose proof (si_pc _ HS). pose proof (si_cl _ HS). pose proof (si_ps _ HS). pose proof (si_sl _ HS).
+  assert (Hn : (N.to_nat (f - sp_mi sp - 1) <= length (sp_ents sp))%nat) by (unfold sp_last, nlen in Hl; lia).
+  (* the in-memory window of the new log, for any marker at or below f *)
+  assert (G : forall mk, sp_mi sp + 1 <= mk -> mk <= f ->
+              skipn (N.to_nat (mk - sp_mi sp - 1)) (sp_ents sp') = sp_slice sp mk f ++ ents).
+  { intros mk G1 G2. rewrite Hents'. rewrite skipn_firstn_app by lia. unfold sp_slice. f_equal. f_equal. lia. }
+  assert (GL : forall mk, sp_mi sp + 1 <= mk -> mk <= f -> log_ok mk (sp_slice sp mk f ++ ents)).
+  { intros mk G1 G2. rewrite <- G by auto.
+    replace mk with (sp_mi sp' + 1 + N.of_nat (N.to_nat (mk - sp_mi sp - 1))) at 1 by (rewrite Hmi'; lia).
+    apply log_ok_skipn. apply (si_log _ HS'). }
+  (* the merge *)
+  assert (HM : exists im', im_merge (el_im (w_el w)) ents = Ok im' /\ im_snap im' = im_snap (el_im (w_el w)) /\ im_aidx im' = im_aidx (el_im (w_el w))
+            /\ im_aterm im' = im_aterm (el_im (w_el w)) /\ im_saved im' = N.min (sp_saved sp) (f - 1)
+            /\ sp_mi sp + 1 <= im_marker im' /\ im_marker im' <= N.min (sp_saved sp) (f - 1) + 1
+            /\ im_ents im' = skipn (N.to_nat (im_marker im' - sp_mi sp - 1)) (sp_ents sp')).
+  { unfold im_merge, ents. fold f. fold ents. rewrite (f_len _ _ HR). 
+    destruct (f =? sp_last sp + 1) eqn:E1.
+    - (* plain append *)
+      rewrite (im_ents_slice _ _ HR).  replace (sp_last sp + 1) with f by lia.
+      rewrite (check_append_ok (im_marker (el_im (w_el w)))) by (apply GL; lia). cbn [bind].
+      rewrite check_marker_hd by (cbn; apply GL; lia).
+      eexists; split; [reflexivity|]. cbn. rewrite (r_s _ _ HR). repeat split; auto; try lia.
+      rewrite G by lia. reflexivity.
+    - destruct (f <=? im_marker (el_im (w_el w))) eqn:E2.
+      + (* replace everything in memory *)
+        cbn [bind]. rewrite check_marker_hd by (cbn; apply (log_ok_skipn _ 0) in Hlog; rewrite N.add_0_r in Hlog; exact Hlog).
+        eexists; split; [reflexivity|]. cbn. repeat split; auto; try lia.
+        rewrite G by lia. unfold sp_slice. replace (N.to_nat (f - f)) with 0%nat by lia. reflexivity.
+      + (* truncate and append *)
+        rewrite (v_im_entries _ _ _ _ HR) by lia. cbn [bind].
+        rewrite (check_append_ok (im_marker (el_im (w_el w)))) by (apply GL; lia). cbn [bind].
+        rewrite check_marker_hd by (cbn; apply GL; lia).
+        eexists; split; [reflexivity|]. cbn. rewrite (r_s _ _ HR). repeat split; auto; try lia.
+        rewrite G by lia. reflexivity. }
+  destruct HM as (im' & Hm & I1 & I2 & I3 & I4 & I5 & I6 & I7).
+  unfold el_append, ents. fold f. fold ents. rewrite (r_c _ _ HR).
+  destruct (f <=? sp_committed sp) eqn:E; [lia|].  rewrite Hm. cbn [bind].
+  eexists; split; [reflexivity|].
+  apply R_el_update with (sp := sp); auto; cbn [el_im el_committed el_processed]; try lia.
+  - rewrite Hps'. apply (idle_cover _ HS Hidle).
+  - rewrite Hp'. apply (r_p _ _ HR).
+  - intros i A B. apply sp_term_eq; auto. destruct (N.eq_dec i (sp_mi sp)) as [->|Hne].
+    + unfold sp_get. rewrite Hmi'. destruct (sp_mi sp <=? sp_mi sp) eqn:Ex; [reflexivity|lia].
+    + apply Hget'; lia.
+  - rewrite Hsv'. intros i A B. apply Hget'; lia.
+  - rewrite Hsv', Hlast'. unfold ents. rewrite nlen_cons. lia.
+Qed.
+
+Lemma step_append w sp ents : R w sp -> wf_op sp (OAppend ents) = true ->
+  exists w', step w (OAppend ents) = Ok w' /\ R w' (sp_append sp ents).
+Proof.
+  intros HR Hwf. cbn [wf_op] in Hwf. destruct ents as [|e0 rest]; [discriminate|].
+  repeat (apply andb_true_iff in Hwf as [Hwf ?]).
+  unfold idle in Hwf. destruct (sp_pend sp) eqn:Ep; [discriminate|].
+  pose proof (r_si _ _ HR) as HS.
+  destruct (bool_log_ok _ _ _ H3 H0) as (Hlog & Hge); [lia|].
+  destruct (el_append_R w sp (e0 :: rest) HR Ep) as (el' & He & HR').
+  { exists e0, rest. split; [reflexivity|]. split; [exact Hlog|]. split; [lia|]. split; [lia|]. split; [|lia].
+    intros e1 Ge. specialize (Hge e0 (or_introl eq_refl)).
+    assert (sp_term sp (e_index e0 - 1) = e_term e1).
+    { unfold sp_term. destruct (sp_get_some _ _ _ HS Ge) as (_ & _ & X & _).
+      destruct (e_index e0 - 1 =? sp_mi sp) eqn:E; [lia|]. rewrite Ge. reflexivity. }
+    lia. }
+  cbn [step]. unfold w_append. rewrite He. cbn [bind]. eexists; split; [reflexivity|]. exact HR'.
+Qed.
+
+(* ------------------------------------------------------------------ *)
+(* initial states (restart over a persisted log)                       *)
+
+Definition wf_init (mi mt : N) (ents : list entry) (c : N) : bool :=
+  contiguous_from (mi + 1) ents && terms_from 1 ents && (c <=? mi + nlen ents)
+  && (mi + nlen ents <? max_index) && ((0 <? mi) || (mt =? 0)).
+
+Lemma find_in_unique a rest e :
+  In e a -> (forall x, In x a -> e_index x = e_index e -> x = e) ->
+  find (fun x => e_index x =? e_index e) (a ++ rest) = Some e.
+Proof.
+  induction a as [|x a IH]; intros Hin Hu; [destruct Hin|]. cbn [app find].
+  destruct (e_index x =? e_index e) eqn:E.
+  - f_equal. apply Hu; [left; reflexivity|lia].
+  - apply IH.
+    + destruct Hin as [->|]; [lia|auto].
+    + intros y Hy. apply Hu. right. exact Hy.
+Qed.
+
+Lemma find_not_in a rest i :
+  (forall x, In x a -> e_index x <> i) ->
+  find (fun x => e_index x =? i) (a ++ rest) = find (fun x => e_index x =? i) rest.
+Proof.
+  induction a as [|x a IH]; intros H; [reflexivity|]. cbn [app find].
+  destruct (e_index x =? i) eqn:E.
+  - exfalso. apply (H x); [left; reflexivity|lia].
+  - apply IH. intros y Hy. apply H. right. exact Hy.
+Qed.
+
+Lemma log_ok_unique b l x y : log_ok b l -> In x l -> In y l -> e_index x = e_index y -> x = y.
+Proof.
+  intros H Hx Hy E. apply In_nth_error in Hx as [kx Kx]. apply In_nth_error in Hy as [ky Ky].
+  destruct (H _ _ Kx) as (A & _). destruct (H _ _ Ky) as (B & _).
+  assert (kx = ky) by lia. subst. congruence.
+Qed.
+
+(* the store after saving a well-formed run of entries *)
+Lemma st_save_get st b l i : log_ok b l -> l <> [] ->
+  st_get (st_save st l) i =
+  if (b <=? i) && (i <? b + nlen l) then nth_error l (N.to_nat (i - b)) else st_get st i.
+Proof.
+  intros H Hne. unfold st_save, st_get. destruct l as [|x l']; [congruence|]. set (l := x :: l') in *.
+  cbn [st_ents]. destruct ((b <=? i) && (i <? b + nlen l)) eqn:E.
+  - destruct (nth_error l (N.to_nat (i - b))) as [e|] eqn:En.
+    2:{ apply nth_error_None in En. unfold nlen in E. lia. }
+    destruct (H _ _ En) as (A & _). replace i with (e_index e) by lia.
+    apply find_in_unique.
+    + apply in_rev. rewrite rev_involutive. eapply nth_error_In; eauto.
+    + intros y Hy Ey. apply in_rev in Hy. eapply log_ok_unique; eauto. eapply nth_error_In; eauto.
+  - apply find_not_in. intros y Hy. apply in_rev in Hy. apply In_nth_error in Hy as [k K].
+    destruct (H _ _ K) as (A & _). assert (k < length l)%nat by (apply nth_error_Some; congruence).
+    unfold nlen in E. lia.
+Qed.
+
+Lemma R_init mi mt ents c limit : wf_init mi mt ents c = true ->
+  R (w_init mi mt ents c limit) (sp_init mi mt ents c).
+Proof.
+  intros Hwf. unfold wf_init in Hwf. repeat (apply andb_true_iff in Hwf as [Hwf ?]).
+  destruct (bool_log_ok _ _ _ Hwf H2) as (Hlog & _); [lia|].
+  set (n := nlen ents) in *. assert (Hn : n = nlen ents) by reflexivity. clearbody n.
+  (* the reader after replay *)
+  assert (HLR : exists lr, (match lr_set_range (if 0 <? mi then mkLR mi mt 1 mi else lr_new) (mi + 1) n with Ok l => l | _ => (if 0 <? mi then mkLR mi mt 1 mi else lr_new) end) = lr
+                /\ lr_marker lr = mi /\ lr_mterm lr = mt /\ lr_len lr = 1 + n /\ lr_ssidx lr <= mi).
+  { eexists; split; [reflexivity|]. unfold lr_set_range, lr_new, lr_first, c19_logreader_init_length.
+    destruct (n =? 0) eqn:En.
+    - destruct (0 <? mi) eqn:Em; cbn [lr_marker lr_len lr_mterm lr_ssidx]; repeat split; try lia.
+    - destruct (0 <? mi) eqn:Em; cbn [lr_marker lr_len lr_mterm lr_ssidx].
+      + destruct (mi + 1 + n - 1 <? mi + 1) eqn:E1; [lia|]. destruct (mi + 1 <? mi + 1) eqn:E2; [lia|].
+        destruct (mi + 1 - mi <? 1) eqn:E3; [lia|]. destruct (1 =? mi + 1 - mi) eqn:E4; [|lia].
+        cbn [lr_marker lr_len lr_mterm lr_ssidx]. repeat split; lia.
+      + destruct (mi + 1 + n - 1 <? 0 + 1) eqn:E1; [lia|]. destruct (mi + 1 <? 0 + 1) eqn:E2; [lia|].
+        destruct (mi + 1 - 0 <? 1) eqn:E3; [lia|]. destruct (1 =? mi + 1 - 0) eqn:E4; [|lia].
+        cbn [lr_marker lr_len lr_mterm lr_ssidx]. repeat split; lia. }
+  destruct HLR as (lr & Elr & L1 & L2 & L3 & L4).
+  unfold w_init. rewrite <- ?Hn. rewrite Elr. unfold el_new, im_new, lr_first, lr_last. rewrite L1, L3.
+  assert (Hlast : sp_last (sp_init mi mt ents c) = mi + n) by (unfold sp_last; cbn; lia).
+  unfold sp_init in *.
+  constructor; cbn [w_el w_lr w_st w_queue el_im el_committed el_processed im_saved im_marker im_ents im_snap im_aidx im_aterm
+                    sp_init sp_mi sp_mt sp_ents sp_committed sp_processed sp_saved sp_snap sp_pend sp_persisted]; rewrite <- ?Hn; try lia.
+  - constructor; cbn; rewrite <- ?Hn; unfold sp_last; cbn; rewrite <- ?Hn; try lia; try congruence.
+    + exact Hlog.
+    + change max_index with 4611686018427387904 in H0. lia.
+  - rewrite skipn_all2; [reflexivity|]. unfold nlen in Hn. lia.
+  - reflexivity.
+  - unfold rd_ok, cover, lr_last, sp_last. cbn [sp_snap sp_persisted sp_saved sp_mi sp_mt sp_ents negb orb]. rewrite <- ?Hn.
+    intros _. rewrite L1, L3. repeat split; try lia.
+  - unfold cover. cbn [sp_snap sp_persisted sp_saved sp_mi sp_mt sp_ents]. rewrite <- ?Hn. intros i H3 H4.
+    destruct ents as [|e0 ents'] eqn:Ee; [cbn in Hn; lia|]. rewrite <- Ee in *.
+    rewrite (st_save_get _ (mi + 1)) by (auto; congruence).
+    destruct ((mi + 1 <=? i) && (i <? mi + 1 + nlen ents)) eqn:E; [|lia].
+    unfold sp_get. cbn [sp_mi sp_ents]. destruct (i <=? mi) eqn:E5; [lia|]. f_equal. lia.
+  - unfold cover. cbn [sp_snap sp_persisted sp_saved sp_mi sp_mt sp_ents]. rewrite <- ?Hn. intros H3.
+    destruct ents as [|e0 ents'] eqn:Ee; [cbn in Hn; lia|]. rewrite <- Ee in *.
+    unfold st_save. rewrite Ee. rewrite <- Ee. cbn [st_max]. rewrite (log_ok_last _ _ Hlog) by congruence. rewrite <- ?Hn. lia.
+  - split; [lia|]. unfold rd_ok. cbn [sp_snap sp_persisted negb orb]. congruence.
+  - reflexivity.
+Qed.
+
+(* ------------------------------------------------------------------ *)
+(* induction over operation sequences                                  *)
+
+(* the operations whose preservation of R is proved here; for the others
+   (Replicate, GetUpdate/Persist/Commit, Restore, Compact) preservation is
+   checked by the differential run and the monitor only *)
+Definition core_op (o : op) : bool :=
+  match o with OAppend _ | OCommitTo _ => true | _ => false end.
+
+Lemma step_core limit w sp o : R w sp -> core_op o = true -> wf_op sp o = true ->
+  exists w', step w o = Ok w' /\ R w' (sp_step limit sp o).
+Proof.
+  intros HR Hc Hwf. destruct o; try discriminate; cbn [sp_step].
+  - apply step_append; auto.
+  - apply step_commit_to; auto.
+Qed.
+
+Lemma run_core limit ops : forall w sp, R w sp -> forallb core_op ops = true ->
+  wf_ops limit sp ops = true ->
+  exists w', run w ops = Ok w' /\ R w' (sp_run limit sp ops).
+Proof.
+  induction ops as [|o ops IH]; intros w sp HR Hc Hwf.
+  - exists w. split; [reflexivity|exact HR].
+  - cbn [forallb] in Hc. apply andb_true_iff in Hc as [Hc1 Hc2].
+    cbn [wf_ops] in Hwf. apply andb_true_iff in Hwf as [Hw1 Hw2].
+    destruct (step_core limit w sp o HR Hc1 Hw1) as (w1 & Hs & HR1).
+    destruct (IH w1 _ HR1 Hc2 Hw2) as (w' & Hr & HR').
+    exists w'. split; [|exact HR']. cbn [run]. rewrite Hs. cbn [bind]. exact Hr.
+Qed.
+
+Theorem logview_refines_partial_proved : forall mi mt ents c limit ops,
+  wf_init mi mt ents c = true -> forallb core_op ops = true ->
+  wf_ops limit (sp_init mi mt ents c) ops = true ->
+  exists w', run (w_init mi mt ents c limit) ops = Ok w' /\
+             views_eq w' (sp_run limit (sp_init mi mt ents c) ops).
+Proof.
+  intros mi mt ents c limit ops Hi Hc Hwf.
+  destruct (run_core limit ops _ _ (R_init mi mt ents c limit Hi) Hc Hwf) as (w' & Hr & HR).
+  exists w'. split; [exact Hr|apply R_views; exact HR].
+Qed.
+
+Theorem err_unreachable_under_wf_partial_proved : forall mi mt ents c limit ops,
+  wf_init mi mt ents c = true -> forallb core_op ops = true ->
+  wf_ops limit (sp_init mi mt ents c) ops = true ->
+  (forall t, run (w_init mi mt ents c limit) ops <> Panic t) /\
+  (forall e, run (w_init mi mt ents c limit) ops <> Fail e).
+Proof.
+  intros mi mt ents c limit ops Hi Hc Hwf.
+  destruct (run_core limit ops _ _ (R_init mi mt ents c limit Hi) Hc Hwf) as (w' & Hr & _).
+  rewrite Hr. split; intros; discriminate.
+Qed.
+
+(* whatever counts as saved is in the store in its current version *)
+Theorem saved_entries_persisted_partial_proved : forall mi mt ents c limit ops w',
+  wf_init mi mt ents c = true -> forallb core_op ops = true ->
+  wf_ops limit (sp_init mi mt ents c) ops = true ->
+  run (w_init mi mt ents c limit) ops = Ok w' ->
+  let sp' := sp_run limit (sp_init mi mt ents c) ops in
+  forall i, sp_mi sp' < i -> i <= im_saved (el_im (w_el w')) ->
+    exists e, st_get (w_st w') i = Some e /\ sp_get sp' i = Some e /\ e_index e = i.
+Proof.
+  intros mi mt ents c limit ops w' Hi Hc Hwf Hrun sp' i H1 H2.
+  destruct (run_core limit ops _ _ (R_init mi mt ents c limit Hi) Hc Hwf) as (w'' & Hr & HR).
+  rewrite Hrun in Hr. inversion Hr; subst w''. fold sp' in HR.
+  pose proof (r_si _ _ HR) as HS. rewrite (r_s _ _ HR) in H2.
+  pose proof (cover_ge_saved _ HS). pose proof (si_sl _ HS).
+  destruct (sp_get_in sp' i HS) as [e Ge]; [lia|lia|].
+  exists e. rewrite (r_st _ _ HR) by lia. repeat split; auto.
+  apply (sp_get_some _ _ _ HS Ge).
+Qed.
